@@ -8,8 +8,9 @@
                   it; nothing in the file reader reads [analysis] follow_symlinks.  A link whose target cannot be
                   stat'ed (a dangling one) is skipped by the walk like any other entry that cannot be read; as a target
                   named on the command line it is an error (CollectPythonFiles: os.Stat fails), as it does not exist in
-                  the tree the code sees.  A link to a directory that carries a Python file name is collected and then
-                  cannot be read: it is reported as an error of its own and contributes nothing.
+                  the tree the code sees.  A link to a directory is skipped by the walk as well, whatever its name
+                  (before the repair of C18-G5 one that carried a Python file name was collected and then could not
+                  be read).
      spec_view    what the property says: with follow_symlinks = false (the documented default) links are not part of
                   the tree; with follow_symlinks = true a link stands for what it points to (a dangling one for nothing).
 
@@ -34,7 +35,8 @@ Fixpoint code_view (t : lnode) : list node :=
   | LFile n => [File n]
   | LDir n cs => [Dir n (flat_map code_view cs)]
   | LLink n KDangling _ => []            (* os.Stat(path) fails in walkFunc: skipped *)
-  | LLink n _ _ => [File n]
+  | LLink n KDir _ => []                 (* os.Stat(path) names a directory: no file, and the walk does not enter it (/repo b200a6e+) *)
+  | LLink n KFile _ => [File n]
   end.
 
 Definition code_world (w : lnode) : node :=
